@@ -155,7 +155,7 @@ def main(tier, seed):
         functions=fns,
         assumptions=[
             __import__("pyvc.props.anysize", fromlist=["A_SUM"]).A_SUM,
-            "A-Phi (0 < Phi < 1, reflection, monotone instances), PhiInv increasing with PhiInv(1/2) = 0; phi_major / phi_major_inverse enter as Phi / PhiInv (C17)",
+            "A-Phi (0 < Phi < 1, reflection, monotone instances), PhiInv increasing with PhiInv(1/2) = 0; phi_major / phi_major_inverse enter as Phi / PhiInv (C17) [A-Phi is machine-checked against Mathlib in lemmas/Phi.lean for Phi := the standard Gaussian CDF (thorough tier of C17); that libm's erfc/2 is this Phi stays assumed]",
             "L-band (the band probability Phi((m-d)/s) - Phi((-m-d)/s), m >= 0, s > 0, is even in d and non-increasing in |d|): machine-checked against Mathlib in lemmas/Phi2.lean (thorough tier); 'never increases as the gap widens' (two teams) and 'equalising never lowers' (n teams) are decided as: the code's value is the ordered-pair average of band probabilities with mu-free margin and scales (exact normal-form identity on the real predict_draw) + L-band + a generic z3 step",
             "NOT DECIDED: predict_draw <= 1 for two teams (needs the numeric constants sqrt(N/2) PhiInv(1/2 + 1/(2N)) <= PhiInv(3/4) for N = 2..16; no contract within reach decides them)",
             "A-fp: reals; order independence 'beyond rounding' is exact equality over the reals",
